@@ -143,8 +143,8 @@ impl Check for C08 {
     }
     fn runs(&self, tier: Tier) -> u64 {
         match tier {
-            Tier::Quick => 60_000,
-            Tier::Thorough => 3_000_000,
+            Tier::Quick => 2_000_000,
+            Tier::Thorough => 60_000_000,
         }
     }
 
